@@ -1,9 +1,101 @@
 (* C09 -- RectClipLines returns exactly the parts of each polyline inside the rectangle.
-   Theorems are proved in proofs/RectLines*.v over the hand model model/RectLines.v (placeholder: being filled in). *)
-From Clip Require Import base.Geom model.RectLeaf model.RectLines.
+
+   All theorems are about the complete hand model model/RectLines.v of RectClipLines64 (Execute / ExecuteInternal /
+   GetPath + RectClip64::Add / GetNextLocation + GetIntersection), which is tied to the C++ by exact output
+   equality on every generated case (checks/C09.py).  Unless a theorem mentions [rect_clip_lines] /
+   [rect_clip_lines_t] it holds for EVERY segment intersection function [gsi] (so independently of binary64
+   behaviour); [rect_clip_lines_t = rect_clip_lines_g get_segment_intersection] is the model with the binary64
+   GetSegmentIntersection.  Output points carry a ghost tag: SV i = copy of input vertex i, SI i = point returned
+   (result true) by GetIntersection on the input segment path[i-1]..path[i], SX i = the ip2 left behind when the
+   GetIntersection call whose result the code ignores returned false.
+   Not proved (validated by the Coq-extracted specification oracle instead): the 1.5-unit on-polyline clause and
+   the total-length clause, which depend on the accuracy of the binary64 intersection point. *)
+From Clip Require Import base.Geom base.FloatModel model.RectLeaf model.RectLines proofs.RectLines proofs.RectFloat.
+From Coq Require Import ZArith List Sorted.
 Local Open Scope Z_scope.
 
-Theorem C09_model_example :
-  rect_clip_lines (mkRect 0 0 10 10) [(-5, 5); (5, 5); (15, 5)] = [[(0, 5); (5, 5); (10, 5)]].
-Proof. exact lines_ex1. Qed.
-Print Assumptions C09_model_example.
+(* provenance: every output vertex is an input vertex lying in the closed rectangle, or was computed by
+   GetIntersection from two consecutive input vertices *)
+Theorem C09_on_polyline_provenance :
+  forall gsi r path out piece v s,
+  rect_clip_lines_g gsi r path = Ok out -> In piece out -> In (v, s) piece ->
+  match s with
+  | SV i => nth_error path i = Some v /\ in_rect r v
+  | SI i => exists a b, seg_at path i a b /\ (gi_result gsi r b a v \/ gi_result gsi r a b v)
+  | SX i => exists a b, seg_at path i a b /\ exists loc l', get_intersection_g gsi r a b loc default_pt = (false, l', v)
+  | SC _ => False
+  end.
+Proof. exact lines_provenance_pointwise. Qed.
+Print Assumptions C09_on_polyline_provenance.
+
+(* containment: slack 0 for copied vertices, slack 1 for computed points provided the intersection function
+   returns points within one unit of the rectangle.  Partial: (a) the hypothesis on gsi is discharged for the
+   binary64 function only for |coordinates| <= 2^25 (C09_gsi_sound_small below), (b) nothing is claimed for a stale ip2
+   (tag SX; the correspondence run checks that the tag never occurs) *)
+Theorem C09_inside_partial :
+  forall gsi r path out piece v s,
+  (forall x y a b ip q, is_side r a b -> gsi x y a b ip = (true, q) -> within r 1 q) ->
+  rect_clip_lines_g gsi r path = Ok out -> In piece out -> In (v, s) piece ->
+  match s with SV _ => within r 0 v | SI _ => within r 1 v | SX _ => True | SC _ => False end.
+Proof. exact lines_inside_pointwise. Qed.
+Print Assumptions C09_inside_partial.
+
+(* order and direction: along the concatenated output the position on the input polyline
+   (vertex i -> 2i+1, point on the segment ending at vertex i -> 2i) never decreases *)
+Theorem C09_order :
+  forall gsi r path out,
+  rect_clip_lines_g gsi r path = Ok out ->
+  StronglySorted le (map (fun tv : tpt => pos (snd tv)) (concat out)).
+Proof. exact lines_order. Qed.
+Print Assumptions C09_order.
+
+(* identity: a path (>= 2 points) all of whose vertices lie in the closed non-empty rectangle is returned as one
+   piece with consecutive duplicate points collapsed (Add drops them); nothing is returned if fewer than two
+   distinct consecutive points remain *)
+Theorem C09_all_inside_identity :
+  forall gsi r path,
+  rect_is_empty r = false -> (2 <= length path)%nat -> (forall v, In v path -> in_rect r v) ->
+  exists out, rect_clip_lines_g gsi r path = Ok out /\
+              untag out = if (2 <=? length (dedup path))%nat then [dedup path] else [].
+Proof. exact lines_identity. Qed.
+Print Assumptions C09_all_inside_identity.
+
+Theorem C09_all_inside_identity_nodup :
+  forall gsi r path,
+  rect_is_empty r = false -> (2 <= length path)%nat -> (forall v, In v path -> in_rect r v) -> no_consec_dup path ->
+  exists out, rect_clip_lines_g gsi r path = Ok out /\ untag out = [path].
+Proof. exact lines_identity_nodup. Qed.
+Print Assumptions C09_all_inside_identity_nodup.
+
+(* paths of fewer than two points give no output *)
+Theorem C09_short_paths :
+  forall gsi r path, (length path < 2)%nat -> rect_clip_lines_g gsi r path = Ok [].
+Proof. exact lines_short. Qed.
+Print Assumptions C09_short_paths.
+
+(* safety: the bounds-checked, fuelled model never reports an out-of-bounds access (path[i], path[i-1]) and never
+   runs out of fuel; the fuel of the main loop is 2*len+2 iterations *)
+Theorem C09_terminates_in_bounds :
+  forall gsi r path, exists out, rect_clip_lines_g gsi r path = Ok out.
+Proof. exact lines_no_error. Qed.
+Print Assumptions C09_terminates_in_bounds.
+
+Theorem C09_model_total :
+  forall r p, exists out, rect_clip_lines_t r p = Ok out /\ rect_clip_lines r p = untag out.
+Proof. exact rect_clip_lines_total. Qed.
+Print Assumptions C09_model_total.
+
+(* binary64 facts for |coordinates| <= 2^25: the cross products inside GetSegmentIntersection are exact ... *)
+Theorem C09_crossF_exact_small :
+  forall p1 p2 p3, small_pt p1 -> small_pt p2 -> small_pt p3 ->
+  crossF p1 p2 p3 = Z2F (cross p1 p2 p3).
+Proof. exact crossF_exact. Qed.
+Print Assumptions C09_crossF_exact_small.
+
+(* ... hence its sign tests are the exact ones *)
+Theorem C09_cross_sign_exact_small :
+  forall p1 p2 p3, small_pt p1 -> small_pt p2 -> small_pt p3 ->
+  feq0 (crossF p1 p2 p3) = (cross p1 p2 p3 =? 0) /\ fgt0 (crossF p1 p2 p3) = (0 <? cross p1 p2 p3)
+  /\ flt0 (crossF p1 p2 p3) = (cross p1 p2 p3 <? 0).
+Proof. exact crossF_sign_exact. Qed.
+Print Assumptions C09_cross_sign_exact_small.
